@@ -27,6 +27,11 @@ def gen(rng, budget, tier):
     # the repaired flush defect and the recorded idle-between-commands finding first
     yield "c02.session 2 50 C0,T300,E"
     yield "c02.session 2 0+5 C0,I,C1,E"
+    # many files in one session (the framed commands together exceed the 32 KiB transport buffers several times)
+    yield f"c02.many serverless {rng.choice([350, 420, 500])} 6000 1500"
+    if tier == "thorough":
+        yield "c02.many ssh 400 6000 2500"
+        yield "c02.many serverless 1200 9000 2500"
     sizes_pool = [0, 1, 5, 99, 100, 101, 250]
     for i in range(budget):
         if i % 9 == 8:
